@@ -424,7 +424,7 @@ var ttRoots = []searchRoot{
 func checkC11(c *harness.Check) {
 	mustAnchors(c)
 	sizes := []uint64{32, 64, 512, 32768, 1 << 20}
-	c.Rule = fmt.Sprintf("roots with position-determined evaluation and exploration (static material leaf; captures-only quiescence over material) whose trees cannot contain a repetition or fifty-move draw x depth <= D x table sizes %v bytes x sequences of searches sharing ONE table (iterative deepening 1..d then d again; the same root at d,d,d-1,d; successive positions of a game along the PV; iterative deepening 1..d at every second position of a game along the PV, as an engine playing a game does; for the low-branching roots: iterative deepening, then EVERY move and EVERY reply, then iterative deepening again). All of it again with the table behind NewMinDepthTranspositionTable(1|2) (the wrapper cmd/morlock uses) for two sizes. Through the iterative-deepening DRIVER: every position within 2 plies of a capture-rich root analysed three times to depth 3 on one table - every iteration reported carries the table-free score of its depth and a variation whose first move is worth it. Through the ENGINE: games of 4-6 plies played by an engine with a 1 MB table (analyse, play the first move) next to an engine without a table given the same moves: same depth and score at every position, the move played worth it; the same as a NEW game (Reset) right after both engines were set up with and analysed the same placement 2 and 1 half-moves from the fifty-move draw (a game whose values its history shaped). Oracle per search: score == score without table == reference minimax; PV non-empty and its first move attains the reference value; EVERY ExactBound store (hash mapped back to its position through the Exploration/QuietSearch seams) equals the reference value of that position at that depth, and so does every exact entry the table HOLDS after the search for any position visited (table swept by Read). Capture-rich middlegame roots (shallow, most entries quiescence leaves), where exhaustive minimax is out of reach: there the value of (position, depth) is what the search itself returns for it on a fresh board without a table. plus a single-bit key probe: an entry stored under h is never returned for h with any one of its 64 bits flipped (all table sizes). distinct_nontrivial = distinct (position, depth) pairs of validated exact entries", sizes)
+	c.Rule = fmt.Sprintf("roots with position-determined evaluation and exploration (static material leaf; captures-only quiescence over material) whose trees cannot contain a repetition or fifty-move draw x depth <= D x table sizes %v bytes x sequences of searches sharing ONE table (iterative deepening 1..d then d again; the same root at d,d,d-1,d; successive positions of a game along the PV; iterative deepening 1..d at every second position of a game along the PV, as an engine playing a game does; for the low-branching roots: iterative deepening, then EVERY move and EVERY reply, then iterative deepening again). All of it again with the table behind NewMinDepthTranspositionTable(1|2) (the wrapper cmd/morlock uses) for two sizes. Through the iterative-deepening DRIVER: every position within 2 plies of a capture-rich root analysed three times to depth 3 on one table - every iteration reported carries the table-free score of its depth and a variation whose first move is worth it. Through the ENGINE: games of 4-6 plies played by an engine with a 1 MB table (analyse, play the first move) next to an engine without a table given the same moves: same depth and score at every position, the move played worth it; the same as a NEW game (Reset) right after both engines were set up with and analysed the same placement 2 and 1 half-moves from the fifty-move draw (a game whose values its history shaped). Oracle per search: score == score without table == reference minimax; PV non-empty and its first move attains the reference value; EVERY ExactBound store (hash mapped back to its position through the Exploration/QuietSearch seams) equals the reference value of that position at that depth, and so does every exact entry the table HOLDS after the search for any position visited (table swept by Read). Capture-rich middlegame roots (shallow, most entries quiescence leaves), where exhaustive minimax is out of reach: there the value of (position, depth) is what the search itself returns for it on a fresh board without a table. plus a single-bit key probe: an entry stored under h is never returned for h with any one or any two of its 64 bits flipped, a 32-bit half inverted, or the halves swapped (all table sizes). distinct_nontrivial = distinct (position, depth) pairs of validated exact entries", sizes)
 	var cases []c11case
 	for _, r := range ttRoots {
 		max := c.Pick(3, 4)
@@ -535,6 +535,24 @@ func checkC11(c *harness.Check) {
 			tt.Write(h, search.ExactBound, 9, 9, eval.HeuristicScore(1), board.Move{From: board.E2, To: board.E4})
 			if _, _, _, _, ok := tt.Read(h); !ok {
 				continue // replaced or not stored: nothing to tell apart
+			}
+			// ... and in any TWO bits (a stored key that folds, adds or xors parts of the hash lets two
+			// flips cancel), in either 32-bit half wholesale, and in the two halves swapped
+			others := []board.ZobristHash{h ^ 0xffffffff, h ^ 0xffffffff00000000, h<<32 | h>>32, h ^ 0xffff0000ffff0000, ^h}
+			for k := 0; k < 64; k++ {
+				for j := k + 1; j < 64; j++ {
+					others = append(others, h^1<<uint(k)^1<<uint(j))
+				}
+			}
+			for _, o := range others {
+				c.Evaluations.Add(1)
+				if o == h {
+					continue
+				}
+				if _, d, sc, _, ok := tt.Read(o); ok {
+					c.Violation(fmt.Sprintf("C11/foreign-hit size=%d other=%x", size, uint64(h^o)), fmt.Sprintf("table of %d bytes: an entry stored under hash %x is returned (depth %d, %v) for hash %x (difference %x)", size, uint64(h), d, sc, uint64(o), uint64(h^o)), "C11/note", 0)
+					break
+				}
 			}
 			for k := 0; k < 64; k++ {
 				c.Evaluations.Add(1)
